@@ -8,6 +8,8 @@
 #include <sstream>
 #include <thread>
 
+#include "uscxml/interpreter/LargeMicroStep.h"
+#include "uscxml/interpreter/FastMicroStep.h"
 #include "faulty.h"
 #include "transform_ops.h"
 
@@ -75,6 +77,29 @@ static std::string configOf(Interpreter& interp) {
 	return out;
 }
 
+// remembered history as state ids (reads the engines' protected state; harness TUs are built with -fno-access-control)
+static std::string historyOf(Interpreter& interp) {
+	std::string out;
+	MicroStepImpl* ms = interp.getImpl()->_microStepper.getImpl().get();
+	if (LargeMicroStep* l = dynamic_cast<LargeMicroStep*>(ms)) {
+		for (auto st : l->_history) {
+			if (out.size()) out += ' ';
+			out += HAS_ATTR(st->element, kXMLCharId) ? ATTR(st->element, kXMLCharId) : "#" + DOMUtils::xPathForNode(st->element);
+		}
+	} else if (FastMicroStep* f = dynamic_cast<FastMicroStep*>(ms)) {
+		for (size_t i = 0; i < f->_states.size(); i++) {
+			if (i < f->_history.size() && f->_history[i]) {
+				if (out.size()) out += ' ';
+				XERCESC_NS::DOMElement* e = f->_states[i]->element;
+				out += HAS_ATTR(e, kXMLCharId) ? ATTR(e, kXMLCharId) : "#" + DOMUtils::xPathForNode(e);
+			}
+		}
+	} else {
+		out = "?";
+	}
+	return out;
+}
+
 static void recordException(const std::string& actor, const char* where) {
 	R->exceptions++;
 	try {
@@ -127,7 +152,7 @@ static void doStep(const std::string& actor, Slot& s, Interpreter& interp, size_
 	r.str(resOut).str(cfg);
 	if (s.recMicro && st != USCXML_INITIALIZED) {
 		try {
-			r.str(interp.getImpl()->_microStepper.serialize().asJSON());
+			r.str(historyOf(interp));
 		} catch (...) {
 			r.str("!");
 		}
